@@ -116,6 +116,8 @@ reg(Check("C17", "model_checking",
           "over all event histories with at most B departures from the default schedule (default = oldest message arrives / the "
           "leader's (else first node's) heartbeat fires / heal; B = 2 quick, 4 thorough for 3 nodes; 1 / 3 for 4 and 5 nodes), terms "
           "bounded by 3 (2 for 4-5 nodes), at most 8 messages in flight, vote_after = node_fail_after = 2; to a fixpoint. "
+          "The same search is repeated from a scripted non-initial state (leader a has declared the cut-off node b dead, the others "
+          "have adopted the reduced ring, the network has healed) for 3 nodes (B = 2 / 3) and, thorough only, 4 nodes. "
           "Gate: all sequences up to length 3 (quick) / 4 (thorough) of {join, publish, get, leave, route} x {same ring, other ring} "
           "and X rehashing, through the real TopicMaster / Route endpoints. Non-trivial = distinct canonical states / sequences.",
           ["hash ties are judged for order-independence and totality only, not for which node wins",
@@ -132,6 +134,8 @@ reg(Check("C17", "model_checking",
           parts=[Part("ring", "server/ringhash", "^TestVerifC17Ring$", shards=(8, 8)),
                  Part("election3", SRV, "^TestVerifC17Election3$", instr=True, gomaxprocs=16, deadline=(120, 3000)),
                  Part("gate", SRV, "^TestVerifC17Gate$", instr=True, shards=(8, 16), deadline=(120, 1800)),
+                 Part("excluded3", SRV, "^TestVerifC17Excluded3$", instr=True, gomaxprocs=16, deadline=(120, 1800)),
+                 Part("excluded4", SRV, "^TestVerifC17Excluded4$", instr=True, gomaxprocs=16, deadline=(120, 1800), thorough_only=True),
                  Part("election4", SRV, "^TestVerifC17Election4$", instr=True, gomaxprocs=16, deadline=(60, 1800)),
                  Part("election5", SRV, "^TestVerifC17Election5$", instr=True, gomaxprocs=16, deadline=(60, 1800))]))
 
